@@ -331,6 +331,11 @@ func stripScheme(u string) string {
 	return u[p:]
 }
 
+// cleanURLPath resolves dot segments and repeated or trailing slashes; the empty path is the root
+func cleanURLPath(p string) string {
+	return filepath.Clean("/" + p)
+}
+
 func irisEqual(i1, i2 IRI, checkScheme bool) bool {
 	u, e := i1.URL()
 	uw, ew := i2.URL()
@@ -345,8 +350,7 @@ func irisEqual(i1, i2 IRI, checkScheme bool) bool {
 	if !strings.EqualFold(u.Host, uw.Host) {
 		return false
 	}
-	if !(u.Path == "/" && uw.Path == "" || u.Path == "" && uw.Path == "/") &&
-		!strings.EqualFold(filepath.Clean(u.Path), filepath.Clean(uw.Path)) {
+	if !strings.EqualFold(cleanURLPath(u.Path), cleanURLPath(uw.Path)) {
 		return false
 	}
 	uq := u.Query()
